@@ -61,7 +61,7 @@ class RawModel(abc.ABC):
         ...
 
     def detach(self) -> list['RawTokenModel']:
-        if not self.token_store:
+        if self.token_store is None:  # (an emptied store is not None: its node was consumed elsewhere and cannot be reused)
             return []
         if (
                 self.first_token is not self.token_store.get_first() or
